@@ -22,7 +22,10 @@ RULE = ('scenarios = reachable networks of MC_C01 (network-level get_power) and 
 def models(tier, seed):
     if tier == 'quick':
         return [dict(module='MC_C02.tla', cfg='MC_C05_quick.cfg', batch=100), dict(module='MC_C01.tla', cfg='MC_C05_net.cfg', batch=200)]
-    return [dict(module='MC_C02.tla', cfg='MC_C05_thorough.cfg', batch=100), dict(module='MC_C01.tla', cfg='MC_C01_thorough.cfg', batch=200)]
+    return [dict(module='MC_C02.tla', cfg='MC_C05_quick.cfg', batch=100), dict(module='MC_C01.tla', cfg='MC_C05_net.cfg', batch=200),
+            dict(module='MC_C02.tla', cfg='MC_C05_thorough.cfg', simulate='num=100000000', depth=4, seed=seed, max_cases=60000, shards=12, batch=50),
+            dict(module='MC_C02.tla', cfg='MC_C05_sim.cfg', simulate='num=100000000', depth=5, seed=seed + 1, max_cases=30000, shards=12, batch=50),
+            dict(module='MC_C01.tla', cfg='MC_C01_simc.cfg', simulate='num=100000000', depth=6, seed=seed + 2, max_cases=40000, shards=12, batch=100)]
 
 
 def required_tags(tier):
